@@ -200,7 +200,7 @@ def corpus():
 
 
 def cases(rng, tier):
-    n_hist = 200 if tier == "quick" else 2000
+    n_hist = 200 if tier == "quick" else 1500
     for _ in range(n_hist):
         g = daglib.gen_dag(rng, rng.randrange(2, 13), p_merge=0.45)
         trees = gen_trees(rng, g, nfiles=rng.choice([1, 2, 4, 4]))
@@ -448,6 +448,7 @@ def distribution(inputs, observations):
         d["revisions"][str(n)] = d["revisions"].get(str(n), 0) + 1
         d["merges"] += sum(1 for ps in inp["g"] if len(ps) > 1)
         d["ghost_histories"] += any(p >= n for ps in inp["g"] for p in ps)
+        d["heads_differ"] += heads_differ(inp)
         if not isinstance(obs, list):
             continue
         d["inconsistent_histories"] += bool(obs[1])
